@@ -701,7 +701,7 @@ def run(tier):
     # configurations run in worker processes (building the schedules is CPU-bound Python), the rest in threads
     # at most ~5 JVMs at a time (each <= 1-2 GB), replay shards are a few MB each: a whole run stays under ~4 GB RSS
     with cf.ThreadPoolExecutor(max_workers=4 if tier == "quick" else 2) as ex, \
-            cf.ProcessPoolExecutor(max_workers=4 if tier == "quick" else 3) as px:
+            cf.ProcessPoolExecutor(max_workers=6 if tier == "quick" else 3) as px:
         order = sorted(cfgs, key=lambda k: -(len(k["p1"]) + len(k["p2"]) + len(k["p3"]) + (2 if k["stop"] else 0)))
         futs = {label_of(k): px.submit(one_config, DirOnly(ck.dir), k, tier, shards) for k in order}
         pfuts = [(dev, k, inv, name, ex.submit(probe_witness, ck, dev, k, inv, name)) for dev, k, inv, name in PROBES]
